@@ -1018,6 +1018,24 @@ class Analysis:
                 "outside_quantifier": "the property speaks of connects that reach both hook points"}
 
 
+def kernel_side_random(c, label):
+    """The random families (uid == gid / uid != gid callers, connections in flight up to the map capacity, ports reused)
+    and the directed port-reuse family on the real C program, judged by EbpfTrace; returns the merged findings.  Used by
+    the properties whose statements rest on what the kernel records (C03: 'not running elevated'; C07: 'for that very
+    connection')."""
+    sim_exe = build_sim()
+    codec = Codec(build_codec())
+    an = Analysis(c, sim_exe, codec, [], c.seed, False, label=label)
+    try:
+        if an.layout():
+            an.random_runs()
+            c.extra["kernel_side_runs"] = {k: v.get("runs") for k, v in (an.stats.get("random") or {}).items()}
+        return merge(an.findings)
+    finally:
+        an.close()
+        codec.close()
+
+
 def kernel_side_port_reuse(c, label="c07k"):
     """The kernel half of 'a connection never inherits another's identity' (used by C07): the directed port-reuse family
     (a record outlives its connection, the port is handed to another caller) on the real C program, judged by EbpfTrace.
